@@ -405,6 +405,38 @@ def run(pid, tier, seed):
                     rep.violation("wide:stdout", "%d sources: stdout is not the stable merge" % nsrc, rec)
                 shutil.rmtree(d, ignore_errors=True)
 
+        # C06: "however slowly each file can be read": one source delivers nothing for seconds (a slow device, a huge
+        # compressed member) at its FileInfo, at a message in the middle, at its summary, while the printing thread waits
+        slow_runs = 0
+        if pid == "C06":
+            d = os.path.join(sc, "slow")
+            os.makedirs(d)
+            srcs = []
+            for w, letter in enumerate("PQ"):
+                blob, msgs = gen.text_source(letter, [(gen.BASE + 2 * i + w, 0) for i in range(30)], frac=0, pad=12)
+                with open(os.path.join(d, "%s.log" % letter), "wb") as f:
+                    f.write(blob)
+                srcs.append(msgs)
+            exps = b"".join(m.data for m in gen.expected_merge(srcs))
+            pauses = [2600, 6500] if tier == "quick" else [1100, 2600, 6500, 12500, 31000, 61000]
+            sjobs = [("w%d:SendStart:%d:%d" % (w, k, ms), ms) for ms in pauses for (w, k) in ((1, 0), (0, 7), (1, 31))][: (4 if tier == "quick" else 99)]
+
+            def sdo(job):
+                hold, ms = job
+                return common.run_s4(["--color", "never", "P.log", "Q.log"], cwd=d, env={"S4_VERIF_HOLD": hold}, timeout=ms / 1000 + 60)
+            with ThreadPoolExecutor(max_workers=8) as ex:
+                sres = list(ex.map(sdo, sjobs))
+            for (hold, ms), rr in zip(sjobs, sres):
+                slow_runs += 1
+                rec = {"kind": "slow", "hold": hold, "rc": rr.rc, "stdout_bytes": len(rr.out)}
+                if rr.timed_out:
+                    rep.violation("slow:hang", "a source silent for %d ms: no exit" % ms, rec)
+                elif rr.crashed or rr.rc != 0:
+                    rep.violation("slow:crash", "a source silent for %d ms: rc=%s" % (ms, rr.rc), rec)
+                elif rr.out != exps:
+                    rep.violation("slow:stdout", "a source silent for %d ms (%s): stdout is not the stable merge (%d of %d bytes)"
+                                  % (ms, hold, len(rr.out), len(exps)), rec)
+
         # I->S: every trace against TraceS4Run (all S4Run invariants + PrintIsEarliest at every step)
         accepted = 0
         for bi, batch in enumerate(batches):
@@ -432,7 +464,7 @@ def run(pid, tier, seed):
             "rule": "distinct = (ground-truth instants per source, schedule) pairs; non-trivial = >= 2 sources with at "
                     "least one equal instant inside or across sources",
             "samples": samples, "tlc_configs": details, "tlc_plans_followed": plan_followed, "tlc_plans_run": plan_total,
-            "source_sets": nsets, "closed_pipe_runs": epipe_runs, "mixed_kind_runs": mixed_runs, "wide_runs": wide_runs, "exhaustive": False,
+            "source_sets": nsets, "closed_pipe_runs": epipe_runs, "mixed_kind_runs": mixed_runs, "wide_runs": wide_runs, "slow_source_runs": slow_runs, "exhaustive": False,
             "checker_cmd": "tlc -config <generated MC cfg> S4Run.tla ; tlc -workers 1 -config <trace cfg> TraceS4Run.tla",
         }
         rep.assumptions = [
